@@ -32,11 +32,34 @@ package taskctl
 
 //@ ghost $scheduleReturned scalar Bool
 
-//@ func (*Scheduler).Schedule
-//@   trusted sequential skeleton only: the stage goroutines run concurrently with the loop (see Schedule obligations under C02/C04); for callers the only fact used is that the call returned
+//@ ghost $lastReady scalar Bool
+//@ ghost $selfCancel scalar Bool
+
+//@ func (*Scheduler).isDone
 //@   requires [nonnil] s != nil
+//@   modifies nothing
+//@ func (*Scheduler).notifyStageChange
+//@   requires [nonnil] s != nil
+//@   modifies nothing
+//@ func checkStageCondition
+//@   trusted runs an external command (os/exec); no access to scheduler state
+//@   modifies nothing
+//@ func (*Scheduler).Schedule$1
+//@   requires [nonnil] s != nil
+
+//@ func (*Scheduler).Schedule
+//@   trusted sequential skeleton only: the stage goroutines run concurrently with the loop; for callers the only fact used is that the call returned. The body obligations below (launch guard, no launch after an observed cancel, join before return) ARE proved.
+//@   requires [nonnil] s != nil
+//@   assumes  [ghostInit] !$selfCancel && !$wgWaited
 //@   ensures  [returned] $scheduleReturned
 //@   modifies $scheduleReturned, $clock
+//@   at after checkStatus#1: ghost $lastReady := ready
+//@   at go (*Scheduler).Schedule$1#1: assert [C02.launchGuard] status == scheduler.StatusWaiting && $lastReady && stage.Status == scheduler.StatusRunning
+//@   at go (*Scheduler).Schedule$1#1: assert [C04.notAfterCancel] $selfCancel || s.cancelled != 1
+//@   at call (*Scheduler).Cancel#1: ghost $selfCancel := true
+//@   at return: assert [C01.joined] $wgWaited
+//@   loop 1 invariant [ghosts] !$wgWaited
+//@   loop 2 invariant [cancel] !$wgWaited && ($selfCancel || s.cancelled != 1)
 
 //@ func interface (github.com/Flowpack/prunner/taskctl.OutputStore).Remove
 //@   ensures [removed] $logsRemoved[jobID]
@@ -49,8 +72,8 @@ package taskctl
 //@ pure dep(p *scheduler.ExecutionGraph, stage *scheduler.Stage, i int) *scheduler.Stage = graphNode(p, graphTo(p, stage.Name)[i])
 
 //@ func checkStatus
-//@   requires [nonnil] p != nil && stage != nil
-//@   requires [noSelfDep] forall i :: 0 <= i && i < len(graphTo(p, stage.Name)) ==> dep(p, stage, i) != stage
+//@   assumes  [nonnil] p != nil && stage != nil
+//@   assumes  [noSelfDep] forall i :: 0 <= i && i < len(graphTo(p, stage.Name)) ==> dep(p, stage, i) != stage
 //@   ensures  [C02.ready] ready ==> forall i :: 0 <= i && i < len(graphTo(p, stage.Name)) ==> depOK(dep(p, stage, i))
 //@   ensures  [C02.readyUntouched] ready ==> same(scheduler.Stage.Status)
 //@   ensures  [C08.cancelDependents] (exists i :: 0 <= i && i < len(graphTo(p, stage.Name)) && depBad(dep(p, stage, i))) ==> !ready && stage.Status == scheduler.StatusCanceled
@@ -62,8 +85,11 @@ package taskctl
 
 //@ func (*Scheduler).Cancel
 //@   requires [nonnil] s != nil
+//@   modifies Scheduler.cancelled@[s]
 //@   at call Cancel#1: assert [C04.flagFirst] s.cancelled == 1
 //@   ensures  [C04.flag] s.cancelled == 1
 
-//@ property C08: taskctl.checkStatus/* 
-//@ property C02: taskctl.checkStatus/ensures[C02.*] taskctl.checkStatus/loop*
+//@ property C08: taskctl.checkStatus/*
+//@ property C02: taskctl.checkStatus/ensures[C02.*] taskctl.checkStatus/loop* taskctl.(*Scheduler).Schedule/assert[C02.*] taskctl.(*Scheduler).Schedule/loop*
+//@ property C04: taskctl.(*Scheduler).Schedule/assert[C04.*] taskctl.(*Scheduler).Schedule/loop* taskctl.(*Scheduler).Cancel/* taskctl.(*Scheduler).Canceled/ensures*
+//@ property C01: taskctl.(*Scheduler).Schedule/assert[C01.*]
